@@ -9,6 +9,7 @@ mod s_authz;
 mod s_determ;
 mod s_engine;
 mod s_expr;
+mod s_limits;
 
 use std::env;
 
@@ -27,6 +28,7 @@ fn main() {
         "authz" => s_authz::run(&opts),
         "atten" => s_atten::run(&opts),
         "determ" => s_determ::run(&opts),
+        "limits" => s_limits::run(&opts),
         other => {
             eprintln!("unknown stream {other}");
             std::process::exit(2);
